@@ -1,5 +1,6 @@
 /-
-  C04, part 1: the token-text relation `TT` and the hypothesis `TokText` on the token source.
+  C04, part 1: the token-text relation `TT` and the statement `TokText` about the token source
+  (PROVED in `Props/C04/TokTextProof.lean`, see there for what is proved and what is left).
 
   `TT line t`: the text of `line` (the tokenizer's `_shell_input_line`: the parser's input plus the
   newline `tokenizer.__init__` appends) under the span of the delivered token `t` is the token's
@@ -7,15 +8,17 @@
   as alternatives (`residues`, `nlOver`):
 
     * a token with a string value `v` spanning `sl = line[a:e]`:
-        `stripContinuations sl = stripContinuations v ++ r`, and `sl = v ++ r` when `sl` holds no
-        line continuation, where the *residue* `r` is empty, or
+        `Del sl (v ++ r)`: the value followed by the *residue* `r` is the text with some
+        backslash-newline pairs deleted (`TTDel.lean`: the ghost relation of `_getc`; it implies
+        `stripContinuations sl = v ++ r` when the value holds no adjacent backslash-newline, and
+        `sl = v ++ r` when `sl` holds no line continuation), where `r` is empty, or
           D31      `r = "\"`            and the rest of the line is the final newline
                    (a continuation that ends the input: the backslash is covered),
           D32      `r = "<\"`, `">\"`   and the next character is a newline (word glued to a
                    redirection operator and a continuation: the double unget),
           D31+D32  `r = "<"`, `">"`     and the rest of the line is backslash newline;
         D32 residues only occur after tokens read by `_readtokenword` (recognisable by their
-        value: not made of metacharacters only);
+        value: not made of metacharacters only, or a process substitution `<(`…, `>(`…);
     * the NEWLINE token read while here-documents were pending spans the newline *and the bodies*
       (`newline-operator-extended-over-heredoc`): `sl` starts with the newline (in non-strict
       mode at the end of the input the span even ends one past the line: the here-document skip
@@ -26,24 +29,40 @@
   WORD / ASSIGNMENT_WORD token; only the value of a NEWLINE token reaches the last character of
   the line.
 
+  CORRECTIONS with respect to the first version of this file (which was validated by evaluation
+  only, on a grid without double quotes and parentheses, and is FALSE of the model):
+    * the first version had `stripContinuations sl = stripContinuations v ++ r`.  Witness against
+      it (checked with `#eval C04.chkInput` on the old definition): the 7-character input
+      `"\\\⏎⏎"` (double quote, three backslashes, two newlines, double quote): the WORD value is
+      `"\\⏎"` (the third backslash and the first newline are a continuation and are skipped by
+      `_getc`); the naive strip of the VALUE removes its `\⏎`, which is not a continuation of the
+      text.  Same for `$(\\\⏎⏎)` and `$(cat <<E⏎\\⏎⏎E⏎)`.
+    * `wordPathV "<()"` was `false` (a process-substitution word is made of metacharacters
+      only); witness `<()<\`: WORD `<()` at (0,4) on the line `<()<\⏎`, residue `<` (D31+D32).
+    * `wordPathV []` is `true`: with `ps.regexp` / `ps.dblparen` set (states that the invariant
+      does not exclude; unreachable) `_readtokenword` may deliver an empty word: `<\⏎x` gives the
+      value `""` spanning `<\`.
+
   `TokText` says that `token()` delivers only such tokens, from every `Good` state of a parser
   object over `line` (C11's state invariant: the tape holds `line`, cursor inside) with an empty
   `_eol_ungetc_lookahead` slot, and that the slot stays empty.  It is a statement about the
-  tokenizer alone.  It is NOT proved here; it was validated by evaluation of
-  the model on 4903 inputs (all parser runs over all suffixes, nested parsers included): see
-  `Props/C04/Validate.lean`.
+  tokenizer alone.  Validation by evaluation of the model: `Props/C04/Validate.lean`.
 -/
 import Bashlex.Spec.Tree
 import Bashlex.Props.C11.Parse
 import Bashlex.Props.C12.Tokens
 import Bashlex.Props.C10.Entry
+import Bashlex.Props.C04.TTDel
 
 namespace Bashlex.C04
 open Bashlex Bashlex.Spec
 
-/-- was a token with this value read by `_readtokenword` (reserved words, words) rather than
-    returned bare by `_readtoken` (operators: metacharacters and newline only) -/
-def wordPathV (v : Str) : Bool := !(v.all isBreakChar)
+/-- may a token with this value have been read by `_readtokenword` (reserved words, words) rather
+    than returned bare by `_readtoken` (operators: metacharacters and newline only)?  Words made
+    of metacharacters only are process substitutions (`<()`); the empty value only occurs with
+    `ps.regexp` / `ps.dblparen` set. -/
+def wordPathV (v : Str) : Bool :=
+  v.isEmpty || !(v.all isBreakChar) || ['<', '('].isPrefixOf v || ['>', '('].isPrefixOf v
 
 /-- what may follow the token's spelling inside its span -/
 def residues (wordPath : Bool) (line : Str) (e : Nat) : List Str :=
@@ -51,9 +70,9 @@ def residues (wordPath : Bool) (line : Str) (e : Nat) : List Str :=
   (if wordPath && line[e]? == some '\n' then [['<', '\\'], ['>', '\\']] else []) ++
   (if wordPath && line.drop e == ['\\', '\n'] then [['<'], ['>']] else [])
 
-/-- text relation between the spanned text `sl`, the value `v` and a residue `r` -/
-def textRel (sl v r : Str) : Bool :=
-  stripContinuations sl == stripContinuations v ++ r && (hasContinuation sl || sl == v ++ r)
+/-- text relation between the spanned text `sl`, the value `v` and a residue `r`: the value and
+    the residue are the text with some backslash-newline pairs deleted -/
+def textRel (sl v r : Str) : Bool := delB sl (v ++ r)
 
 def isWordTy (t : Token) : Bool := t.is .WORD || t.is .ASSIGNMENT_WORD
 
